@@ -2,11 +2,16 @@ SPECIFICATION Spec
 CONSTANTS
   KindSet = {"cluster", "clusterbatch"}
   ClassSet = {"readonly", "retryable", "plain"}
+  ShapeSet = {"one"}
+  PathSet = {"sync", "pipelined"}
   MaxSends = 2
   MaxMoved = 1
   CtxKinds = {"none", "cancel", "deadline"}
   AllowExpiredSent = FALSE
   AllowBatchSibling = FALSE
+  AllowTxResend = FALSE
+  BugBatchAnyRetryable = FALSE
+  BugSyncExpired = FALSE
   BugIgnoreRetryable = FALSE
   BugRetryErrReply = FALSE
   BugRetryAfterCtx = FALSE
